@@ -116,6 +116,8 @@ def main(argv):
         c.broken.append("build of the repo working tree / harnesses failed: " + blog[-800:])
         return c.finish(rule="build failed")
     c.proofs()
+    if c.tier == "thorough":
+        coqchk(c)
     drv, dlog = build_driver("C18")
     if drv is None:
         c.broken.append("extraction/driver build failed: " + dlog[-600:])
